@@ -265,8 +265,9 @@ impl<'a, T: IteTable<'a, BddPtr<'a>> + Default> RobddBuilder<'a, T> {
             return bdd;
         }
 
+        let var_at_current = self.order.borrow().var_at_level(current);
         match bdd {
-            BddPtr::Reg(node) => {
+            BddPtr::Reg(node) if node.var == var_at_current => {
                 let smoothed_node = BddNode::new(
                     node.var,
                     self.smooth_helper(node.low, current + 1, total),
@@ -275,8 +276,10 @@ impl<'a, T: IteTable<'a, BddPtr<'a>> + Default> RobddBuilder<'a, T> {
                 self.get_or_insert(smoothed_node)
             }
             BddPtr::Compl(node) => self.smooth_helper(BddPtr::Reg(node), current, total).neg(),
-            BddPtr::PtrTrue | BddPtr::PtrFalse => {
-                let var = self.order.borrow().var_at_level(current);
+            // the diagram skips the variable at this level (or is a constant):
+            // insert a don't-care node for it
+            BddPtr::Reg(_) | BddPtr::PtrTrue | BddPtr::PtrFalse => {
+                let var = var_at_current;
                 let smoothed_node = BddNode::new(
                     var,
                     self.smooth_helper(bdd, current + 1, total),
